@@ -33,7 +33,11 @@
 //! no other mutation must be exact over that state (`inflight:<api>:after:<first mutation>:<what>`),
 //! one that ran before the first mutation satisfies the cached-index oracle (`…:index-fresh:…`), one that
 //! overlapped mutations may only return keys with the true score of a vector the key held between its
-//! start and its end (`…:overlapping-mutation:…`)).
+//! start and its end (`…:overlapping-mutation:…`)), `buildrace` (`build_and_cache_index` running while
+//! another thread stores / overwrites / deletes in the default collection; after both were joined every
+//! answer must satisfy the cached-index oracle over the final data — a deleted key or an overwritten
+//! vector's score means an index that missed a completed mutation is being consulted:
+//! `stale-index:default:build_and_cache_index-overlapped-mutations`; `--probe 10` is the minimal witness).
 //!
 //! Failure classes carry their own signature (`stale-index:<slot>:after:<api>`,
 //! `cached:<api>:<what>`, `exact:<api>:<what>`, `readback:<api>:<what>`); three by-products of the
@@ -2004,8 +2008,8 @@ fn run_alias(case_seed: u64, r: &mut Report, verbose: bool) {
 //    returned key must be stored with the query's dimension in one of those states and carry the
 //    true score of that vector; no duplicates, at most k, reported scores best first. Which keys
 //    are returned is not judged (the answer may mix states).
-// Builds never run concurrently with mutations of their slot (not demanded: the statement speaks
-// about data changing after the build).
+// In this part indexes are built and cached only while no other thread runs; a build racing with
+// mutations is part `buildrace`.
 // ------------------------------------------------------------------------------------------------
 
 #[derive(Clone, Debug)]
@@ -2647,35 +2651,266 @@ fn run_concurrent(case_seed: u64, r: &mut Report, verbose: bool, thorough: bool)
 }
 
 // ------------------------------------------------------------------------------------------------
+// part `buildrace`: `build_and_cache_index` of the default collection running while another thread
+// stores / overwrites / deletes. After both threads were joined the engine either holds no index, or
+// one that reflects every mutation that had returned — so whatever it answers must satisfy the
+// cached-index oracle over the *final* data (every returned key currently stored, true score of the
+// current vector, no duplicates, best first, at most k). Completeness is demanded only when the
+// tick brackets order the build entirely before the mutations (exhaustive oracle) — and nothing more
+// than the cached-index oracle when the build came entirely after them or overlapped them.
+// ------------------------------------------------------------------------------------------------
+
+fn racing_build_api(m: &CMut) -> &'static str {
+    match m {
+        CMut::Store { meta: None, .. } => "store_embedding[racing-build_and_cache_index]",
+        CMut::Store { meta: Some(_), .. } => "store_embedding_with_metadata[racing-build_and_cache_index]",
+        CMut::BatchStore(_) => "batch_store_embeddings[racing-build_and_cache_index]",
+        CMut::Delete(_) => "delete_embedding[racing-build_and_cache_index]",
+        CMut::BatchDelete(_) => "batch_delete_embeddings[racing-build_and_cache_index]",
+        CMut::Clear => "clear[racing-build_and_cache_index]",
+    }
+}
+
+fn run_buildrace(case_seed: u64, r: &mut Report, verbose: bool) {
+    use std::sync::atomic::{AtomicBool, AtomicU64, Ordering};
+    let mut rng = Rng::new(case_seed ^ 0xB11D);
+    let mut cx = Ctx { r, case_seed, part: "buildrace", trace: Vec::new(), verbose, step: 0 };
+    let dim = *rng.pick(&[3usize, 4, 8, 8, 16, 24]);
+    let n0 = 40 + rng.below(160);
+    let cfg = {
+        let mut c = VectorEngineConfig::default();
+        c.sparse_threshold = *rng.pick(&[0.5f32, 0.5, 0.0, 1.0]);
+        c
+    };
+    let engine = match VectorEngine::with_config(cfg) {
+        Ok(e) => e,
+        Err(e) => {
+            cx.r.inconclusive(&format!("engine construction failed: {}", e));
+            return;
+        }
+    };
+    let mut slot = CSlot { coll: None, space: Space::new("emb:"), metric: Metric::Cos, created: false, next_key: 0 };
+    let clock = AtomicU64::new(1);
+    let rounds = 2 + rng.below(2);
+    for round in 0..rounds {
+        // ---- quiescent: refill; no index is cached
+        let want = if round == 0 { n0 } else { 30 };
+        while slot.space.data.len() < want {
+            let key = format!("k{}", slot.next_key);
+            slot.next_key += 1;
+            let (v, _) = gen_vec(&mut rng, dim, &pool_of(&slot.space, dim));
+            if !slot.store_quiescent(&engine, &key, v) {
+                cx.r.inconclusive("buildrace: store of a valid vector failed");
+                return;
+            }
+        }
+        engine.invalidate_hnsw_cache("_default");
+        slot.space.cache = Cache::Absent;
+        let n_mut = 1 + rng.below(3);
+        let plan = plan_mutations(&mut rng, &mut slot, dim, n_mut);
+        // queries: the vectors the mutations remove / replace / add
+        let mut targeted: Vec<Vec<f32>> = Vec::new();
+        {
+            let mut sim = slot.space.clone();
+            for m in &plan {
+                let keys: Vec<&String> = match m {
+                    CMut::Store { key, .. } | CMut::Delete(key) => vec![key],
+                    CMut::BatchStore(items) => items.iter().map(|(k, _)| k).collect(),
+                    CMut::BatchDelete(ks) => ks.iter().collect(),
+                    CMut::Clear => sim.data.keys().take(3).collect(),
+                };
+                for k in keys {
+                    if let Some(e) = sim.data.get(k) {
+                        targeted.push(e.v.clone());
+                    }
+                }
+                if let CMut::Store { v, .. } = m {
+                    targeted.push(v.clone());
+                }
+                m.apply_model(&mut sim, "plan");
+            }
+        }
+        targeted.retain(|v| v.len() == dim && v.iter().any(|x| x.abs() >= 1e-3));
+        let hcfg = hnsw_cfg(&mut rng, Metric::Cos);
+        let spin = rng.below(4000);
+        let go = AtomicBool::new(false);
+        let (build, times, mut_err) = std::thread::scope(|sc| {
+            let (engine, clock, go, plan) = (&engine, &clock, &go, &plan);
+            let mutator = sc.spawn(move || {
+                let t = Instant::now();
+                while !go.load(Ordering::SeqCst) && t.elapsed().as_secs() < 60 {
+                    std::thread::yield_now();
+                }
+                for _ in 0..spin {
+                    std::hint::spin_loop();
+                }
+                let mut times = Vec::new();
+                for m in plan {
+                    let t0 = clock.fetch_add(1, Ordering::SeqCst);
+                    let res = m.apply_real(engine, None);
+                    let t1 = clock.fetch_add(1, Ordering::SeqCst);
+                    if let Err(e) = res {
+                        return (times, Some(format!("{} failed: {}", racing_build_api(m), e)));
+                    }
+                    times.push((t0, t1));
+                }
+                (times, None)
+            });
+            let builder = sc.spawn(move || {
+                go.store(true, Ordering::SeqCst);
+                let b0 = clock.fetch_add(1, Ordering::SeqCst);
+                let res = catch_unwind(AssertUnwindSafe(|| engine.build_and_cache_index(hcfg)));
+                let b1 = clock.fetch_add(1, Ordering::SeqCst);
+                (b0, b1, res)
+            });
+            let b = builder.join().ok();
+            let (times, err) = mutator.join().unwrap_or_else(|_| (Vec::new(), Some("mutator thread panicked".into())));
+            (b, times, err)
+        });
+        if let Some(e) = mut_err {
+            cx.r.inconclusive(&format!("buildrace: {}", first_line(&e)));
+            return;
+        }
+        let Some((b0, b1, bres)) = build else {
+            cx.r.inconclusive("buildrace: builder thread failed");
+            return;
+        };
+        cx.r.count("op:build_and_cache_index[racing-mutations]", 1);
+        let built = match bres {
+            Err(p) => {
+                cx.violation("build-race:build_and_cache_index:panic".into(), format!("build_and_cache_index panicked while another thread ran {:?}: {}", plan.iter().map(|m| m.describe()).collect::<Vec<_>>(), first_line(&panic_msg(&p))));
+                false
+            }
+            // a vector that disappears between the key scan and its read makes the build fail: nothing is cached
+            Ok(Err(e)) => {
+                cx.log(format!("build_and_cache_index() -> Err({})", first_line(&e.to_string())));
+                cx.r.count("buildrace:build_refused", 1);
+                false
+            }
+            Ok(Ok(())) => true,
+        };
+        let all_before_build = times.last().map_or(true, |(_, t1)| *t1 < b0);
+        let build_before_all = times.first().map_or(false, |(t0, _)| b1 < *t0);
+        if built && build_before_all {
+            slot.space.cache = Cache::Fresh; // the mutations below turn it stale in the model
+        }
+        for (m, (t0, t1)) in plan.iter().zip(&times) {
+            let api = racing_build_api(m);
+            cx.log(format!("{} {} during ticks {}..{} (build: {}..{})", api, m.describe(), t0, t1, b0, b1));
+            cx.r.count(&format!("op:{}", api), 1);
+            m.apply_model(&mut slot.space, api);
+        }
+        if built && all_before_build {
+            slot.space.cache = Cache::Fresh;
+        }
+        let overlapping = built && !all_before_build && !build_before_all;
+        cx.r.count("buildrace:rounds", 1);
+        if overlapping {
+            cx.r.count("buildrace:rounds_build_overlapped_a_mutation", 1);
+        }
+        let first_api = plan.first().map(racing_build_api).unwrap_or("?");
+        let n_post = 3 + rng.below(3);
+        for j in 0..n_post {
+            cx.step += 1;
+            let q = if !targeted.is_empty() && (j < targeted.len() || rng.bool()) { targeted[rng.below(targeted.len())].clone() } else { gen_query(&mut rng, dim, &pool_of(&slot.space, dim)) };
+            let k = *rng.pick(&[1usize, 3, 10, 20, 1000]);
+            if !overlapping {
+                judged_search(&mut cx, &engine, "search_similar", "default", "_default", &mut slot.space, true, &q, k, Metric::Cos, None, false, &|| engine.search_similar(&q, k));
+                continue;
+            }
+            // the index (if the engine kept one) was built while the data changed: only the
+            // cached-index oracle over the final data is demanded
+            cx.r.count("search:search_similar", 1);
+            cx.r.count("buildrace:searches_judged_after_overlapping_build", 1);
+            let n_same = slot.space.data.values().filter(|e| e.v.len() == q.len()).count();
+            cx.eval(n_same >= 2);
+            let out = catch_unwind(AssertUnwindSafe(|| engine.search_similar(&q, k)));
+            let res = match out {
+                Err(p) => {
+                    cx.violation("build-race:search_similar:panic".into(), first_line(&panic_msg(&p)));
+                    continue;
+                }
+                Ok(Err(e)) => {
+                    cx.violation("build-race:search_similar:error".into(), format!("search_similar failed on a valid query: {}", e));
+                    continue;
+                }
+                Ok(Ok(r)) => r,
+            };
+            cx.log(format!("search_similar k={} after build || mutations -> {}", k, fmt_res(&res)));
+            cx.r.count("judged:cached-mode", 1);
+            cx.r.count("cached-mode:results", res.len() as u64);
+            if let Err(b) = judge_common(&res, &slot.space, &q, k, Metric::Cos, None) {
+                // ask the real code: is it the cached index?
+                engine.invalidate_hnsw_cache("_default");
+                let again = catch_unwind(AssertUnwindSafe(|| engine.search_similar(&q, k)));
+                let cured = matches!(&again, Ok(Ok(r2)) if judge_common(r2, &slot.space, &q, k, Metric::Cos, None).is_ok());
+                let detail = format!(
+                    "build_and_cache_index (ticks {}..{}) ran while another thread executed {:?} (ticks {:?}); after both had returned search_similar answered {} — {}: {}",
+                    b0,
+                    b1,
+                    plan.iter().map(|m| m.describe()).collect::<Vec<_>>(),
+                    times,
+                    fmt_res(&res),
+                    b.what,
+                    b.detail
+                );
+                if cured {
+                    // one signature: the cause is the build caching what it read, whichever API changed the data
+                    cx.violation("stale-index:default:build_and_cache_index-overlapped-mutations".to_string(), format!("{}; first mutation: {}; after invalidate_hnsw_cache the same search is correct", detail, first_api));
+                } else {
+                    cx.violation(format!("build-race:search_similar:{}", b.what), detail);
+                }
+            }
+        }
+    }
+    for (k, e) in &slot.space.data {
+        check_readback(&mut cx, "get_embedding", k, engine.get_embedding(k), &e.v);
+    }
+    cx.r.count("buildrace_programs", 1);
+}
+
+// ------------------------------------------------------------------------------------------------
 // `--probe 1`: the minimal witnesses of the defects this monitor found, run against the real code
 // ------------------------------------------------------------------------------------------------
 
 fn probe_build_race() {
-    // not judged by the check (see part `concurrent`): build_and_cache_index racing with a store
-    let mut stale = 0;
-    let rounds = 200;
+    // build_and_cache_index racing with overwrites: thread B replaces every vector v_i by -v_i while
+    // thread A builds. Once both have returned every key holds -v_i, yet search_similar(v_i) keeps
+    // reporting k_i with score 1.0 for the keys that A had read before B replaced them.
+    let rounds = 50;
+    let mut stale_rounds = 0;
+    let mut example = String::new();
     for round in 0..rounds {
         let e = VectorEngine::new();
+        let vec_of = |i: usize| -> Vec<f32> { (0..8).map(|j| (((i + 1) * (j + 2) * 37 + round * 11 + i * i * (j + 1)) % 101) as f32 - 50.3).collect() };
         for i in 0..200 {
-            e.store_embedding(&format!("k{}", i), (0..8).map(|j| ((i * 7 + j * 3 + round) % 11) as f32 - 5.0).collect()).unwrap();
+            e.store_embedding(&format!("k{}", i), vec_of(i)).unwrap();
         }
-        let newv = vec![9.0f32, -9.0, 9.0, -9.0, 1.0, 2.0, 3.0, 4.0];
         std::thread::scope(|s| {
             s.spawn(|| e.build_and_cache_index(HNSWConfig::default()).unwrap());
             s.spawn(|| {
-                for _ in 0..(round % 20) * 50 {
-                    std::hint::spin_loop();
+                for i in 0..200 {
+                    e.store_embedding(&format!("k{}", i), vec_of(i).iter().map(|x| -x).collect()).unwrap();
                 }
-                e.store_embedding("new", newv.clone()).unwrap()
             });
         });
-        // both calls have returned
-        let top = e.search_similar(&newv, 10).unwrap();
-        if !top.iter().any(|r| r.key == "new") {
-            stale += 1;
+        // both threads have returned: no vector v_i is stored any more
+        let mut stale_keys = 0;
+        for i in 0..200 {
+            let key = format!("k{}", i);
+            let top = e.search_similar(&vec_of(i), 3).unwrap();
+            if top.iter().any(|r| r.key == key && r.score > 0.9) {
+                stale_keys += 1;
+                if example.is_empty() {
+                    example = format!("search_similar(v_{}, 3) -> {} although {} now holds -v_{} (true score -1)", i, fmt_res(&top), key, i);
+                }
+            }
+        }
+        if stale_keys > 0 {
+            stale_rounds += 1;
         }
     }
-    println!("10 build_and_cache_index() || store_embedding(new); join; search_similar(new vector, 10) does not contain \"new\" in {} of {} rounds", stale, rounds);
+    println!("10 build_and_cache_index() || overwrite every k_i with -v_i; join: the old score of some key is still reported in {} of {} rounds; e.g. {}", stale_rounds, rounds, example);
 }
 
 fn probes() {
@@ -2818,6 +3053,7 @@ fn main() {
                 "alias" => guarded("alias", seed, &mut one, |r| run_alias(seed, r, attempt == 0)),
                 "rerank" => guarded("rerank", seed, &mut one, |r| run_rerank(seed, r, attempt == 0)),
                 "concurrent" => guarded("concurrent", seed, &mut one, |r| run_concurrent(seed, r, attempt == 0, false)),
+                "buildrace" => guarded("buildrace", seed, &mut one, |r| run_buildrace(seed, r, attempt == 0)),
                 _ => guarded("program", seed, &mut one, |r| run_program(seed, r, attempt == 0, &scratch_base)),
             }
             let hit = match &want {
@@ -2840,6 +3076,8 @@ fn main() {
             guarded("rerank", seed, &mut total, |r| run_rerank(seed, r, verbose));
         } else if args.extra.get("part").map(|s| s.as_str()) == Some("concurrent") {
             guarded("concurrent", seed, &mut total, |r| run_concurrent(seed, r, verbose, false));
+        } else if args.extra.get("part").map(|s| s.as_str()) == Some("buildrace") {
+            guarded("buildrace", seed, &mut total, |r| run_buildrace(seed, r, verbose));
         } else {
             guarded("program", seed, &mut total, |r| run_program(seed, r, verbose, &scratch_base));
         }
@@ -2849,6 +3087,9 @@ fn main() {
         let thorough = !args.quick();
         let n = args.by_tier(120u64, 4_000u64);
         let rep = par_cases((args.threads / 4).max(2), args.seed ^ 0xCC, n, args.budget(12, 150), |_i, s, r| guarded("concurrent", s, r, |r| run_concurrent(s, r, false, thorough)));
+        total.merge(rep);
+        let n = args.by_tier(60u64, 3_000u64);
+        let rep = par_cases((args.threads / 2).max(2), args.seed ^ 0xBD, n, args.budget(5, 90), |_i, s, r| guarded("buildrace", s, r, |r| run_buildrace(s, r, false)));
         total.merge(rep);
     } else {
         let n = args.by_tier(6_000u64, 400_000u64);
@@ -2866,6 +3107,9 @@ fn main() {
         let n = args.by_tier(120u64, 4_000u64);
         let rep = par_cases((args.threads / 4).max(2), args.seed ^ 0xCC, n, args.budget(12, 150), |_i, s, r| guarded("concurrent", s, r, |r| run_concurrent(s, r, false, thorough)));
         total.merge(rep);
+        let n = args.by_tier(60u64, 3_000u64);
+        let rep = par_cases((args.threads / 2).max(2), args.seed ^ 0xBD, n, args.budget(5, 90), |_i, s, r| guarded("buildrace", s, r, |r| run_buildrace(s, r, false)));
+        total.merge(rep);
     }
 
     let concurrent_floors: Vec<(&'static str, u64)> = vec![
@@ -2875,10 +3119,12 @@ fn main() {
         ("concurrent:inflight_judged", 2_000),
         ("concurrent:inflight_began_after_a_mutation_returned", 200),
         ("concurrent:searches_after_join_on_changed_data", 100),
+        ("buildrace:rounds_build_overlapped_a_mutation", 20),
+        ("buildrace:searches_judged_after_overlapping_build", 60),
     ];
     let meta = Meta {
         property: "C06",
-        rule: "one evaluation = one search call of the real VectorEngine judged against the f64 reference scorer over the shadow model (exhaustive oracle: exact top-k modulo eps-ties at the k-th boundary, order, scores, no deleted/overwritten/other-dimension vector; cached-index oracle while the data is unchanged since the build: keys stored, true scores, no duplicates, ordered, <= k); distinct by hash(case seed, step); non-trivial when at least 2 stored vectors have the query's dimension; part concurrent: the same per search, for searches called after all threads were joined and for searches recorded while a mutator thread ran (judged by the state(s) their tick bracket allows)",
+        rule: "one evaluation = one search call of the real VectorEngine judged against the f64 reference scorer over the shadow model (exhaustive oracle: exact top-k modulo eps-ties at the k-th boundary, order, scores, no deleted/overwritten/other-dimension vector; cached-index oracle while the data is unchanged since the build: keys stored, true scores, no duplicates, ordered, <= k); distinct by hash(case seed, step); non-trivial when at least 2 stored vectors have the query's dimension; part concurrent: the same per search, for searches called after all threads were joined and for searches recorded while a mutator thread ran (judged by the state(s) their tick bracket allows); part buildrace: the same per search called after a build that raced with mutations was joined",
         assumptions: vec![
             "score tolerance = 1e-4 relative + 1e-6 absolute, relative to max(|score|, sum|q_i v_i| (normalised by the norms for cosine)): an f32 SIMD dot product is accurate relative to the size of its terms, not of a cancelling result".into(),
             "cosine score of a stored zero vector is taken as 0 (the engine's documented convention); queries are non-zero; no NaN/inf; every non-zero vector has a component >= 1e-3 of its scale so f32 norms neither underflow nor overflow".into(),
@@ -2889,7 +3135,8 @@ fn main() {
             "a query whose dimension differs from the indexed vectors' (shorter, longer, empty) has no defined score: on every index-assisted path it must not panic and must not return a key; an empty answer (the exhaustive search's answer) and a DimensionMismatch / EmptyVector error are both accepted".into(),
             "search_with_hnsw_and_metric (index just built) is judged with the cached-index oracle under the f64 reference of the chosen extended metric: raw value as documented on tensor_store::DistanceMetric / SparseVector (cosine, acos(cosine) for angular and geodesic, Jaccard and overlap on non-zero positions, weighted Jaccard, L2, L1, composite = weighted mean of (cos+1)/2, Jaccard and 1/(1+L2)) and the documented to_similarity ((cos+1)/2, 1 - angle/pi, 1/(1+distance), identity); tolerance 1e-4 relative + 1e-6, for the angular metrics the acos-amplified f32 rounding of the cosine (3e-7) instead".into(),
             "an index handed to cache_hnsw_index for a named collection maps node ids to storage keys (the convention of vector_engine's own test) and is withdrawn by the program when the collection's configuration is replaced (create_collection / load_index)".into(),
-            "part concurrent: a call is taken to precede another when its closing tick (drawn after it returned) is smaller than the other's opening tick (drawn before it was called) on one SeqCst counter; a search is judged exactly only when no mutation of its collection overlaps it, otherwise each returned key may carry the score of any vector it held between the search's start and end and the choice of keys is not judged; indexes are built and cached only while no other thread runs (a build racing with a store is not judged); one mutator thread per collection, so the order of a collection's mutations is the program order".into(),
+            "part concurrent: a call is taken to precede another when its closing tick (drawn after it returned) is smaller than the other's opening tick (drawn before it was called) on one SeqCst counter; a search is judged exactly only when no mutation of its collection overlaps it, otherwise each returned key may carry the score of any vector it held between the search's start and end and the choice of keys is not judged; indexes are built and cached only while no other thread runs; one mutator thread per collection, so the order of a collection's mutations is the program order".into(),
+            "part buildrace: build_and_cache_index overlapping mutations of the default collection is judged only after both threads were joined and only with the cached-index oracle over the final data (keys stored, true score of the current vector, no duplicates, ordered, <= k): it holds for an engine that kept no index and for one that kept an index reflecting every completed mutation, and says nothing about which of the two the engine chose; a build that fails because a vector vanished under it is accepted (nothing may then be cached)".into(),
             "hostile key names (keys starting with \"emb:\", empty key, non-ASCII) are used in 1 of 8 programs".into(),
         ],
         floors: if single {
